@@ -209,6 +209,36 @@ fn rename_cases(out: &mut Vec<Case>) {
     }
 }
 
+/// Option values written the "lenient" way: quoted where a bare word is expected, in another
+/// case, with a leading `::`, blank, outside ASCII. The derives answer with an impl or with
+/// diagnostics - never with a panic.
+fn lenient_spellings(out: &mut Vec<Case>) {
+    let quoted = ["my-attr", "", " ", "::x::y", "a::", "::", "1a", "a b", "a,b", "é", "r#type", "type", "a::b", "x"];
+    for q in quoted {
+        for opt in ["attributes", "forward_attrs", "supports", "bound", "rename_all"] {
+            out.push(Case { src: format!("#[darling({opt}(\"{q}\"))] struct S {{ a: u8 }}"), nontrivial: true });
+            out.push(Case { src: format!("#[darling(attributes(a), {opt}(\"{q}\", b))] struct S {{ attrs: Vec<syn::Attribute>, a: u8 }}"), nontrivial: true });
+            out.push(Case { src: format!("#[darling({opt} = \"{q}\")] struct S {{ a: u8 }}"), nontrivial: true });
+        }
+        for opt in ["rename", "with", "map", "and_then", "default"] {
+            out.push(Case { src: format!("struct S {{ #[darling({opt} = \"{q}\")] a: u8, b: u8 }}"), nontrivial: true });
+            out.push(Case { src: format!("#[darling(attributes(a))] struct S {{ #[darling({opt} = \"{q}\", flatten)] a: u8, #[darling({opt} = \"{q}\", {opt} = \"b\")] b: u8 }}"), nontrivial: true });
+            out.push(Case { src: format!("enum E {{ #[darling({opt} = \"{q}\")] A, B {{ #[darling({opt} = \"{q}\")] x: u8 }} }}"), nontrivial: true });
+        }
+    }
+    for w in ["enumé", "structñamed", "形状", "Struct_Named", "ENUM_UNIT", "Any", "enum_", "struct_", "enum", "struct", "enum_é", "struct_a\u{301}", "e", "é", "enumx_unit", "stru\u{441}t_any"] {
+        out.push(Case { src: format!("#[darling(attributes(a), supports({w}))] struct S {{ a: u8 }}"), nontrivial: true });
+        out.push(Case { src: format!("#[darling(attributes(a), supports({w}, struct_any))] struct S {{ a: u8 }}"), nontrivial: true });
+    }
+    for name in ["::map", "::and_then", "::skip", "::rename", "::with", "::default", "::flatten", "::multiple", "a::map", "darling::map", "::word", "::supports", "::attributes"] {
+        for val in ["", " = f", " = \"x\"", "(a)"] {
+            out.push(Case { src: format!("#[darling(attributes(a))] struct S {{ #[darling({name}{val})] a: u8, b: u8 }}"), nontrivial: true });
+            out.push(Case { src: format!("#[darling({name}{val})] struct S {{ a: u8 }}"), nontrivial: true });
+            out.push(Case { src: format!("enum E {{ #[darling({name}{val})] A, B {{ #[darling({name}{val})] x: u8 }} }}"), nontrivial: true });
+        }
+    }
+}
+
 pub fn cases(tier: Tier) -> Vec<Case> {
     let thorough = tier == Tier::Thorough;
     let bs = bodies(if thorough { 3 } else { 2 });
@@ -234,6 +264,7 @@ pub fn cases(tier: Tier) -> Vec<Case> {
         }
     }
     rename_cases(&mut out);
+    lenient_spellings(&mut out);
     out
 }
 
